@@ -25,6 +25,14 @@ def venueIxOp (op : String) (a : List Int) : Option String :=
       | "vn.kwd", [now, amount, all, expected, obPre, obPost, vPre, vPost] =>
         some (showResB ((kaminoWithdraw now b bal amount (s2b all) (fun _ => expected) obPre obPost vPre vPost).map fun o =>
           s!"{showBank o.bank} {o.bank.lastUpdate} {showBal o.bal} {o.collateral} {o.paid}"))
+      | "vn.sdep", [now, expected, pre, post] =>
+        some (showResB ((solendDeposit now b bal expected pre post).map fun (b', x', t) =>
+          match x' with
+          | some y => s!"{showBank b'} {b'.lastUpdate} 1 {showBal y} {t}"
+          | none => s!"{showBank b'} {b'.lastUpdate} 0 0 0 0 0 0 0 {t}"))
+      | "vn.swd", [now, amount, all, expected, obPre, obPost, vPre, vPost] =>
+        some (showResB ((solendWithdraw now b bal amount (s2b all) (fun _ => expected) obPre obPost vPre vPost).map fun o =>
+          s!"{showBank o.bank} {o.bank.lastUpdate} {showBal o.bal} {o.collateral} {o.paid}"))
       | "vn.ddep", [now, amount, dec, cum, pre, post] =>
         some (showResB ((driftDeposit now b bal amount dec cum pre post).map fun (b', x', t) =>
           match x' with
